@@ -21,12 +21,14 @@ ASSUME = ["CPython 3.12.1 and PyYAML as installed in /venv; awesomeyaml imported
 
 _UNI = None
 _LIFE = False
+_WITH_DOCS = False
 
 
-def _init(uni, life):
-    global _UNI, _LIFE
+def _init(uni, life, with_docs=False):
+    global _UNI, _LIFE, _WITH_DOCS
     _UNI = uni
     _LIFE = life
+    _WITH_DOCS = with_docs
     import evalobs  # noqa
 
 
@@ -62,7 +64,7 @@ def outcome_for_compare(o):
     return {"status": st,
             "data": compact_plain(o["data"]) if done else [],
             "classes": sorted(sorted([[kstr(k) for k in p] for p in g]) for g in o["classes"]) if done else [],
-            "calls": [{"p": [kstr(k) for k in p], "fn": fn} for p, fn in o["calls"]] if done or st in ("EvalError", "UnsafeError") else [],
+            "calls": [{"p": [kstr(k) for k in c[0]], "fn": c[1]} for c in o["calls"]] if done or st in ("EvalError", "UnsafeError") else [],
             "ev": [[kstr(k) for k in p] for p in o["ev"]] if done else []}
 
 
@@ -103,13 +105,19 @@ def _record_one(args):
     tree, o = observe_docs(docs, safes, lifecycle=_LIFE)
     if tree is None:
         return {"tid": tid, "skip": o["status"]}
-    t = {"tid": tid, "tree": P.project(tree), "status": o["status"], "data": o["data"], "ids": o["ids"], "classes": o["classes"],
+    import copy
+    t = {"tid": tid, "tree": P.project(tree), "copytree": P.project(copy.deepcopy(tree)), "status": o["status"], "data": o["data"], "ids": o["ids"], "classes": o["classes"],
          "calls": o["calls"], "ev": o["ev"], "lifecycle": o["lifecycle"], "issues": o["issues"]}
+    if _WITH_DOCS:
+        import drive
+        t["docs"] = docs
+        t["safes"] = [bool(x) for x in safes]
+        t["stages"] = []
     return t
 
 
-def record(hs, life):
-    with mp.Pool(16, initializer=_init, initargs=([], life)) as pool:
+def record(hs, life, with_docs=False):
+    with mp.Pool(16, initializer=_init, initargs=([], life, with_docs)) as pool:
         return pool.map(_record_one, hs, chunksize=max(1, len(hs) // 128 or 1))
 
 
@@ -163,7 +171,7 @@ def _run(spec, prop, tier, seed, replay_path, wd):
     summary = {}
     if replay_path:
         body = json.load(open(replay_path))
-        _init([], life)
+        _init([], life, bool(spec.get("with_docs")))
         t = _record_one((1, body["docs"], body["safes"]))
         for y in body["yaml"]:
             print("---\n" + y, end="")
@@ -187,7 +195,7 @@ def _run(spec, prop, tier, seed, replay_path, wd):
         sub = os.path.join(wd, "exh_" + docs_name)
         os.makedirs(sub)
         ex = E.exhaustive(prop, docs_name, smin, smax, spec["invariants"], sub, module="MC_Eval", init="MInit", next_="MNext",
-                          extra_consts={"MaxEvals": str(spec.get("max_evals", 1))}, doc_range=drange)
+                          extra_consts={"MaxEvals": str(spec.get("max_evals", 1))}, doc_range=drange, safes=spec.get("safes", "{TRUE}"))
         if ex["violated"]:
             cex = ex["cex"]
             shown = ("\n".join("---\n" + S.render_doc(d) for d in cex["docs"]) + f"\nstatus={cex.get('status')}") if cex else ex["raw"]["out"][-3000:]
@@ -237,7 +245,7 @@ def _run(spec, prop, tier, seed, replay_path, wd):
         hs.append((tid, docs, safes))
         info[tid] = (docs, safes, m)
         tid += 1
-    traces = [t for t in record(hs, life)]
+    traces = [t for t in record(hs, life, bool(spec.get("with_docs")))]
     usable = [t for t in traces if "skip" not in t]
     rows, st, tr = validate(prop, usable, wd)
     cov["states"] += st
@@ -299,7 +307,7 @@ def _run(spec, prop, tier, seed, replay_path, wd):
                           init=None if live else "MInit", next_=None if live else "MNext", spec="MSpec" if live else None,
                           properties=["Terminates"] if live else (), switches=[mu["switch"]] if mu.get("switch") else (),
                           mutation=mu.get("mutation"), emit=False, extra_consts={"MaxEvals": str(mu.get("max_evals", 1))},
-                          doc_range=mu.get("range", "WholeRange"), timeout=600)
+                          doc_range=mu.get("range", "WholeRange"), timeout=600, safes=spec.get("safes", "{TRUE}"))
         refuted = bool(ex["violated"])
         cov["mutations"].append({"mutation": mu.get("switch") or mu.get("mutation"), "universe": mu["docs"], "expected_to_fail": mu["expect"],
                                  "refuted_by_tlc": refuted, "violated": ex["violated"], "tlc_wall_s": round(ex["wall"], 1)})
